@@ -35,6 +35,9 @@ type CrashScenario struct {
 	Want       map[string][]byte
 	BaseKeys   []Key
 	BaseProbes []Key
+	// Dropped: the base image is a legacy store with entries whose primary
+	// data no longer exists (trace predicate for known-finding matching).
+	Dropped bool
 	// SkipEmpty: do not explore the crash points of the preamble's last op.
 	SkipEmpty bool
 	// only restricts exploration to one crash image (replay).
@@ -357,8 +360,22 @@ func recoverC03(sc *CrashScenario, img vos.Image, info crashInfo, c *Collector) 
 		}()
 	}()
 	setMapOrder(sc.Cfg)
+	fw.FS.StartLog(true)
 	if err := fw.Open(); err != nil {
 		return violO("crash", "open-error", "open after crash: %v", err)
+	}
+	// Crash during recovery: the reopening itself mutates the directory
+	// (torn tails cut off, snapshot consumed, headers rewritten). Every crash
+	// point and torn write of *that* is recovered once more (depth 2) and
+	// must satisfy the same allowed-value sets.
+	if rlog := fw.FS.Log(); len(rlog) > 0 && sc.ownsOracle("crash") {
+		rbase := fw.FS.Base()
+		rlogCopy := append([]vos.Mut(nil), rlog...)
+		if v2 := sc.recoverAgain(rbase, rlogCopy, info, c); v2 != nil {
+			vos.SetBackend(fw.FS)
+			return v2
+		}
+		vos.SetBackend(fw.FS)
 	}
 	// (b) every key reads an allowed value
 	for _, ks := range [][]Key{info.keys, info.probes} {
@@ -494,4 +511,85 @@ func runCrashScenarios(c *Collector, scs []*CrashScenario) {
 	}
 	c.res.Engine = "X (crash-image enumerator over the MemFS mutation log of real executions; recovery by the real OpenStore)"
 	c.res.Bound = fmt.Sprintf("%d scenarios; all histories up to the per-scenario depth; every crash point and torn prefix of the last op of every history", len(scs))
+}
+
+
+// recoverAgain enumerates the crash points of a recovery (depth 2).
+func (sc *CrashScenario) recoverAgain(base *vos.Image, rlog []vos.Mut, info crashInfo, c *Collector) *Violation {
+	check := func(p, torn int) *Violation {
+		img := vos.CrashImage(base, rlog, p, torn)
+		c.count("crash_images_depth2", 1)
+		w2 := &World{Cfg: sc.Cfg, FS: vos.FromImage(img), Model: map[string][]byte{}, GCInt: 1000 * 3600e9, Sync: 1000 * 3600e9, Keys: info.keys, Probes: info.probes, crashed: true}
+		var v *Violation
+		func() {
+			defer func() {
+				if r := recover(); r != nil {
+					v = violO("crash", "panic", "panic recovering from a crash during recovery: %v", r)
+					w2.opened = false
+				}
+				func() {
+					defer func() { recover() }()
+					w2.Close()
+				}()
+			}()
+			if err := w2.Open(); err != nil {
+				v = violO("crash", "open-error", "open after a crash during recovery: %v", err)
+				return
+			}
+			for _, ks := range [][]Key{info.keys, info.probes} {
+				for _, k := range ks {
+					got, found, err := w2.S.Get(k.Raw)
+					if err != nil {
+						v = violO("crash", "call-error", "Get(%s) after a crash during recovery: %v", k.Name, err)
+						return
+					}
+					vals, absentOK := info.allowed(k)
+					if !found {
+						if !absentOK {
+							v = violO("crash", "key-lost", "Get(%s) after a crash during recovery: absent (allowed: %q)", k.Name, vals)
+							return
+						}
+						continue
+					}
+					ok := false
+					for _, x := range vals {
+						if bytes.Equal(x, got) {
+							ok = true
+						}
+					}
+					if !ok {
+						v = violO("crash", "wrong-value", "Get(%s) after a crash during recovery = %q, allowed %q (absent allowed: %v)", k.Name, got, vals, absentOK)
+						return
+					}
+				}
+			}
+		}()
+		if v != nil {
+			where := fmt.Sprintf("second crash before mutation %d/%d of the recovery", p, len(rlog))
+			if torn >= 0 {
+				where = fmt.Sprintf("recovery mutation %d/%d torn after %d bytes", p, len(rlog), torn)
+			}
+			if p < len(rlog) {
+				where += " (" + rlog[p].String() + ")"
+				v.Culprit = "recovery:" + mutSiteInner(&rlog[p])
+			}
+			v.Detail = where + ": " + v.Detail
+			v.Trigger = "crash-during-recovery"
+		}
+		return v
+	}
+	for p := 0; p < len(rlog); p++ {
+		if v := check(p, -1); v != nil {
+			return v
+		}
+		if rlog[p].Kind == vos.MWrite {
+			pts, _ := tornPoints(len(rlog[p].Data))
+			for _, t := range pts {
+				if v := check(p, t); v != nil {
+					return v
+				}
+			}
+		}
+	}
+	return nil
 }
